@@ -461,13 +461,17 @@ theorem lookupSeg_NFg (g) : ∀ (segs : List (Bytes × Node)) (key : Bytes) (c :
 
 theorem upsertSeg_NFg (g) : ∀ (segs : List (Bytes × Node)) (key : Bytes) (c : Node),
     NFgSegs g segs → NFg g c → NFgSegs g (upsertSeg segs key c)
-  | [], _, _, _, hc => by simp [upsertSeg, NFgSegs, hc]
+  | [], _, _, _, hc => by simp [upsertSeg, upsertKV, NFgSegs, hc]
   | (k', c') :: rest, key, c, hwf, hc => by
     simp only [NFgSegs] at hwf
-    simp only [upsertSeg]
+    have ih := upsertSeg_NFg g rest key c hwf.2 hc
+    simp only [upsertSeg] at ih ⊢
+    unfold upsertKV
     split
     · simp [NFgSegs, hc, hwf.2]
-    · simp only [NFgSegs]; exact ⟨hwf.1, upsertSeg_NFg g rest key c hwf.2 hc⟩
+    · split
+      · simp only [NFgSegs]; exact ⟨hc, hwf.1, hwf.2⟩
+      · simp only [NFgSegs]; exact ⟨hwf.1, ih⟩
 
 theorem lookupVar_NFg (g) : ∀ (vars : List (Var × Node)) (name : Bytes) (v : Var) (c : Node),
     NFgVars g vars → lookupVar vars name = some (v, c) → v.toks = g v.name ∧ NFg g c
